@@ -41,10 +41,12 @@ type state struct {
 }
 
 // front-end sets. C01 names exactly these five (whole-buffer calls).
-var setC01 = [][2]string{{"oj.Parse", ""}, {"oj.ParseReader", "whole"}, {"oj.Validate1", ""}, {"oj.Tokenize1", ""}, {"gen.Parse", ""}}
+var setC01 = [][2]string{{"oj.Parse", ""}, {"oj.ParseReader", "whole"}, {"oj.Validate1", ""}, {"oj.Tokenize1", ""}, {"gen.Parse", ""},
+	{"oj.Unmarshal", ""}, {"oj.ParseString", ""}}
 
 // C09 adds the chunked reader variants: position must not depend on chunking.
 var setC09 = [][2]string{{"oj.Parse", ""}, {"oj.ParseReader", "whole"}, {"oj.Validate1", ""}, {"oj.Tokenize1", ""}, {"gen.Parse", ""},
+	{"oj.Unmarshal", ""}, {"oj.Parser.Unmarshal", ""}, {"oj.ParseString", ""},
 	{"oj.ParseReader", "1"}, {"oj.ParseReader", "3"}, {"oj.ValidateReader1", "whole"}, {"oj.ValidateReader1", "1"}, {"oj.ValidateReader1", "3"},
 	{"oj.TokenizeLoad1", "whole"}, {"oj.TokenizeLoad1", "1"}, {"oj.TokenizeLoad1", "3"}, {"gen.ParseReader", "whole"}, {"gen.ParseReader", "1"}, {"gen.ParseReader", "3"},
 	// readers that hand over their last bytes together with io.EOF (iotest.DataErrReader) and that return half of what is asked for
